@@ -120,6 +120,47 @@ def run(F, R, ctx):
                    "host function from a script with too few arguments panics instead of raising an arity error" % (
                        fn.short(), fn.blocks[a]["line"]), fn.loc(fn.blocks[a]["line"]), sample=True if nidx <= 2 else None)
     R.floor("C20.b", "guarded wrapper indexings", nidx, 100)
+    R.rule("C20.p", "a registered function receives each of its declared parameters from its own argument position: in every "
+                    "RegisterFn wrapper closure the constant indexes into args cover 0 … n−1 (and nothing beyond), where n is the constant "
+                    "args.len() is compared with. nc: a wrapper that never reads one position (and reads another twice in its place) hands the "
+                    "host function a duplicated argument, and the skipped argument is never converted or type-checked")
+    npos = 0
+    for fn, arg in wrappers:
+        asserts = [i for i, b in enumerate(fn.blocks) if b["k"] == "assert" and b["what"] == "bounds" and not b["c"]]
+        asserts = [a for a in asserts if c07.arg_indexing(fn, arg, a)]
+        if not asserts:
+            continue
+        idxs = []
+        for a in asserts:
+            blk = fn.blocks[a]
+            il = [e[2] for e in blk["e"] if e[0] == "der" and len(e) >= 5 and e[3] == "Lt" and e[4] == 0]
+            for l_ in il:
+                for e in blk["e"]:
+                    if e[0] == "kv" and e[1] == l_ and e[2].startswith("const:"):
+                        idxs.append(int(e[2][6:]))
+        lens = set()
+        for i, b in fn.calls():
+            if re.search(r"slice::\{impl \[T\]\}::len$", b["callee"]) and arg in lib.alias_sources(fn, b["args"][0]):
+                lens.add(b["dest"])
+        arity = None
+        for b in fn.blocks:
+            for e in b["e"]:
+                if e[0] == "binop" and e[2] == "usize" and e[1] in ("Ne", "Eq"):
+                    ops = (e[5], e[6])
+                    if any(x in lens or (x.startswith("_") and lens & lib.alias_sources(fn, x)) for x in ops):
+                        for x in ops:
+                            if str(x).startswith("const:"):
+                                arity = int(x[6:])
+        if arity is None or not idxs:
+            continue
+        npos += 1
+        ok = set(idxs) == set(range(arity))
+        R.inst("C20.p", "%s / reads every position of args[0..%d)" % (fn.short(), arity), ok,
+               "the registered-function wrapper %s (arity %d) reads args at positions %s: position(s) %s never reach the host "
+               "function (read more than once: %s)" % (fn.short(), arity, sorted(idxs), sorted(set(range(arity)) - set(idxs)),
+                                                     sorted(x for x in set(idxs) if idxs.count(x) > 1)),
+               fn.loc(), sample=True if npos <= 2 else None)
+    R.floor("C20.p", "wrapper closures with constant argument positions", npos, 30)
 
     # ---- c
     _, callers = F.graph()
@@ -182,6 +223,7 @@ def run(F, R, ctx):
     R.inst("C20.c", "NurseryAccessToken::drop frees all", dn is not None and bool(dn.call_blocks(r"OpaqueReferenceNursery\}::free_all$", wrappers=True)),
            "NurseryAccessToken's destructor no longer clears the nursery", "%s:%s" % (nt["file"], nt["line"]), sample=True)
     roundtrip_rule(F, R)
+    tuple_arity_rule(F, R)
 
 
 # ---------------------------------------------------------------------------------------------------------------------
@@ -261,3 +303,47 @@ def roundtrip_rule(F, R):
                "that is in range" % (t, "/".join(missing), t, "/".join(sorted(accepted)), t),
                frm[t].loc(), sample={"type": t, "into": sorted(produced), "from": sorted(accepted)})
     R.floor("C20.r", "types with both conversions and a kind match", n, 20)
+
+
+def tuple_arity_rule(F, R):
+    R.rule("C20.t", "a tuple is extracted only from a list of exactly its length: in every FromSteelVal impl for a tuple type "
+                    "the successful return is dominated by a branch on a comparison of the list's len(), or — when the elements "
+                    "are taken from an iterator — by the None outcome of one more next() than the tuple has fields. nc: "
+                    "otherwise a script list with surplus elements is silently cut down to the tuple instead of being reported "
+                    "as mistyped (a registered function taking (A, B) is invoked with arguments of the wrong shape)")
+    n = 0
+    for name, fn in sorted(F.fns.items()):
+        m = re.search(r"\{impl FromSteelVal for \((.+)\)\}::from_steelval$", name)
+        if not m or not name.startswith("steel::"):
+            continue
+        arity = m.group(1).count(",") + 1
+        n += 1
+        oks = [i for i, _, e in fn.events("agg") if e[1] == "Result" and e[2] == "Ok"]
+        if not oks:
+            # Result is not a workspace type: take the blocks that build the tuple from the converted elements
+            convs = [i for i, b in fn.calls() if re.search(r"from_steelval$", b["callee"])]
+            oks = convs[-1:] if convs else []
+        dom = fn.dominators()
+        ok = False
+        for o in oks:
+            for sb in dom[o]:
+                blk = fn.blocks[sb]
+                if blk["k"] != "switch":
+                    continue
+                loc = re.match(r"_\d+", blk.get("place", "").strip("()*"))
+                if not loc:
+                    continue
+                from .c07 import _backward, _origins
+                maps = _backward(fn)
+                org = {x.split(".")[0] for x in _origins(fn, loc.group(0), maps, depth=10)} | {loc.group(0)}
+                for ci, cb in fn.calls():
+                    if (cb.get("dest") or "").split(".")[0] in org and re.search(r"::len$", cb["callee"]):
+                        ok = True
+            nexts = [i for i, b in fn.calls() if re.search(r"::next$", b["callee"]) and i in dom[o]]
+            if len(nexts) >= arity + 1:
+                ok = True
+        R.inst("C20.t", "FromSteelVal for (%s) / length checked" % m.group(1), ok,
+               "FromSteelVal for (%s) builds the tuple from the first %d elements of a list without establishing that the list "
+               "ends there (no comparison of len(), no %d-th next() that must be None): (take-pair (list 1 2 3)) invokes the "
+               "host function with (1, 2)" % (m.group(1), arity, arity + 1), fn.loc(), sample=True)
+    R.floor("C20.t", "tuple conversions", n, 1)
